@@ -18,7 +18,7 @@ JudgeVolume(e) ==
   /\ (e.finished /\ ~IsTrunc(e)) => Report("C16:reply_kept", e.res = "sat" /\ 1 \in ToSet(e.model) /\ Cardinality(ToSet(e.model)) = 6)
   \* a model cut after K literals (no terminating 0), wherever the cut falls, is not a result (also C17)
   /\ (e.finished /\ IsTrunc(e)) => /\ Report("C16:truncated_model_is_not_a_result", e.res \in {"unknown", "abort"})
-                                    /\ Report("C17:truncated_model_is_not_a_result", e.res \in {"unknown", "abort"})
+                                   /\ Report("C17:truncated_model_is_not_a_result", e.res \in {"unknown", "abort"})
 Init == l = 1
 Next ==
   /\ l <= Len(Rec)
